@@ -114,18 +114,27 @@ impl MultiExecMatcher {
     ) -> Result<Self, Box<dyn Error>> {
         let transformed_args = args.iter().map(OsString::from).collect();
 
-        Ok(Self {
+        let matcher = Self {
             executable: executable.to_string(),
             args: transformed_args,
             exec_in_parent_dir,
             command: RefCell::new(None),
-        })
+        };
+        // Reject fixed arguments that leave no room for a command line right
+        // away, rather than failing while files are being processed.
+        matcher.try_new_command()?;
+        Ok(matcher)
+    }
+
+    fn try_new_command(&self) -> std::io::Result<argmax::Command> {
+        let mut command = argmax::Command::new(&self.executable);
+        command.try_args(&self.args)?;
+        Ok(command)
     }
 
     fn new_command(&self) -> argmax::Command {
-        let mut command = argmax::Command::new(&self.executable);
-        command.try_args(&self.args).unwrap();
-        command
+        // safe to unwrap: the same arguments were accepted in new()
+        self.try_new_command().unwrap()
     }
 
     fn run_command(&self, command: &mut argmax::Command, matcher_io: &mut MatcherIO) {
